@@ -17,7 +17,7 @@ from sim import outcome, rng, seams, shrink, workload
 
 ID = "C13"
 MODULE = "checks.c13_factories"
-SIG_CLASSES = ["plain", "name", "kwonly", "varkw", "object", "partial", "builtin", "nddefault", "posonly-name", "varpos-signature"]
+SIG_CLASSES = ["plain", "name", "kwonly", "varkw", "object", "partial", "builtin", "nddefault", "posonly-name", "varpos-signature", "wraps-plain", "wraps-name", "lru-name"]
 FAULTS = ["raise", "type-list", "type-none", "type-scalar", "type-duck", "type-memoryview", "type-npscalar", "shape-extra", "shape-transposed", "shape-broadcast"]
 
 
@@ -175,6 +175,27 @@ def make_factory(sigclass, arr, pos, log, fault=None):
             record((shape,), {} if not signature else {"signature": signature})
             return produce(shape)
         return f, set()
+    if sigclass in ("wraps-plain", "wraps-name"):
+        # a functools.wraps pass-through decorator (logging / timing / retry style): the declared signature is the wrapped function's
+        if sigclass == "wraps-plain":
+            def inner(shape):
+                record((shape,), {})
+                return produce(shape)
+        else:
+            def inner(shape, name=None):
+                record((shape,), {"name": name})
+                return produce(shape)
+
+        @functools.wraps(inner)
+        def wrapper(*args, **kwargs):
+            return inner(*args, **kwargs)
+
+        return wrapper, (set() if sigclass == "wraps-plain" else {"name"})
+    if sigclass == "lru-name":
+        def inner(shape, name=None, arg_index=None):
+            record((shape,), {"name": name, "arg_index": arg_index})
+            return produce(shape)
+        return functools.lru_cache(maxsize=None)(inner), {"name", "arg_index"}
     if sigclass == "nddefault":
         def f(shape, init=np.zeros(3)):  # an array-valued default: part of the signature that keys the cache
             record((shape,), {})
